@@ -616,7 +616,12 @@ def build_request(rng):
     for k, v in headers:
         raw += f"{k}: {v}\r\n".encode("latin1")
     raw += b"\r\n" + wire_body
-    return dict(method=method, target=target, reqver=reqver, headers=headers, body_kind=body_kind, body=body, wire_body=wire_body, raw=raw)
+    # what http.server hands to the handler (runtime, not werkzeug): header values lose their leading blanks in
+    # email.feedparser, and since CPython 3.12 parse_request() collapses a run of leading slashes of the target into one
+    stored = [(k, v.lstrip(" \t")) for k, v in headers]
+    path = "/" + target.lstrip("/") if target.startswith("//") else target
+    return dict(method=method, target=target, path=path, reqver=reqver, headers=stored, body_kind=body_kind, body=body,
+                wire_body=wire_body, raw=raw)
 
 
 STATUSES = ["200 OK", "200 OK", "201 Created", "204 No Content", "304 Not Modified", "404 Not Found", "500 Internal Server Error", "200",
@@ -792,8 +797,8 @@ def run(chk: Check) -> None:
         # ---- request side oracle: method, percent-decoded path, query, headers, body
         if env.get("REQUEST_METHOD") != rq["method"]:
             bad("method", f"REQUEST_METHOD {env.get('REQUEST_METHOD')!r} != {rq['method']!r}")
-        tgt = rq["target"]
-        if tgt.startswith("/") and not tgt.startswith("//") and "#" not in tgt:
+        tgt = rq["path"]
+        if tgt.startswith("/") and "#" not in tgt:
             p, _, q = tgt.partition("?")
             want = unquote_to_bytes(p)
             try:
